@@ -47,6 +47,10 @@ for g in GROUPS:
             env.eq('Adj_method', raw(r), getattr(op, g + '_AdjXa').forward(Xd, ad))
             env.eq('AdjT_method', raw(rt), getattr(op, g + '_AdjTXa').forward(Xd, ad))
             env.eq('Adj_accepts_plain_tensor', raw(X.Adj(ad)), raw(r))
+            # the functional forms pp.Adj / pp.AdjT / pp.Jinvp / pp.Retr are the methods (each wrapper calls ITS method)
+            for fname, arg in (('Adj', alg(pp, g, ad)), ('AdjT', alg(pp, g, ad)), ('Retr', alg(pp, g, ad))):
+                if hasattr(pp, fname):
+                    env.eq(f'pp.{fname}(X, a) is X.{fname}(a)', raw(getattr(pp, fname)(X, arg)), raw(getattr(X, fname)(arg)))
 
         @obligation(f'C05.{g}.Retr_add', functions=[f'{LT}:LieType.Retr', f'{LT}:{g}Type.add_', f'{LT}:LieTensor.add', f'{LT}:LieTensor.add_',
                                                     f'{LT}:LieTensor.__add__', f'{LT}:LieType.add_', f'{LT}:LieTensor.Retr'], max_paths=32)
